@@ -156,7 +156,7 @@ int main(int argc, char **argv) {
             auto cols = vf::split(line, '\t');
             if (cols.size() < 2) continue;
             std::vector<long> ex = vf::parse_ints(cols[0].c_str());
-            vf::begin_case(idx, 10);
+            vf::begin_case(idx, 30);
             snprintf(vf::g_desc, sizeof(vf::g_desc), "expr=%s", std::string(ex.begin(), ex.end()).substr(0, 300).c_str());
             // (1) ParseExpressions + Evaluate on an exact-size buffer
             long ok = 0, exact = 0, n16 = 0, kind = 0;
@@ -202,7 +202,7 @@ int main(int argc, char **argv) {
             auto cols = vf::split(line, '\t');
             if (cols.size() < 3) continue;
             std::vector<long> t = vf::parse_ints(cols[0].c_str()), vj = vf::parse_ints(cols[1].c_str());
-            vf::begin_case(idx, 10);
+            vf::begin_case(idx, 30);
             {
                 std::string d = "template=";
                 for (long u : t) d.push_back((u >= 32 && u < 127) ? (char)u : '?');
@@ -253,7 +253,7 @@ int main(int argc, char **argv) {
             auto cols = vf::split(line, '\t');
             if (cols.size() < 3) continue;
             std::vector<long> t = vf::parse_ints(cols[0].c_str()), vj = vf::parse_ints(cols[1].c_str());
-            vf::begin_case(idx, 10);
+            vf::begin_case(idx, 30);
             {
                 std::string d = "template=";
                 for (long u : t) d.push_back((u >= 32 && u < 127) ? (char)u : '?');
@@ -311,7 +311,7 @@ int main(int argc, char **argv) {
             auto cols = vf::split(line, '\t');
             if (cols.size() < 3) continue;
             std::vector<long> t = vf::parse_ints(cols[0].c_str()), vj = vf::parse_ints(cols[1].c_str());
-            vf::begin_case(idx, 10);
+            vf::begin_case(idx, 30);
             {
                 std::string d = "template=";
                 for (long u : t) d.push_back((u >= 32 && u < 127) ? (char)u : '?');
